@@ -67,7 +67,7 @@ def check (doc : Json) : WF :=
   let pathOK := ops.all fun o =>
     let vars := extractPathParams o.1
     let declared := (paramsIn "path" o.2.2).map fun p => strOf (field "name" p)
-    !hasDup declared && vars.all (declared.contains ·) && declared.all (vars.contains ·) && !hasDup vars &&
+    !hasDup declared && vars.all (declared.contains ·) && declared.all (vars.contains ·) &&
     (paramsIn "path" o.2.2).all fun p => isTrue (field "required" p)
   let namesOK := ops.all fun o => ["path", "query", "header", "cookie"].all fun loc =>
     !hasDup ((paramsIn loc o.2.2).map fun p => strOf (field "name" p))
